@@ -15,8 +15,9 @@ ENTRY = {'assumptions': ['the matches of each rule on the text and their environ
                  "LSP histories: 'highest-version text received' is read per document lifetime (didOpen … didClose), and the text of a didChange is its last "
                  'content change (LSP specification, full sync); the literal whole-history reading is refuted by lsp_literal_*_counterexample and holds for '
                  'protocol-conforming histories (lsp_latest_literal_partial)'],
- 'lean_modules': ['AstGrepVerif.Props.C09', 'AstGrepVerif.Props.C09a', 'AstGrepVerif.Props.C07'],
- 'theorems': ['AGV.C09a.frontends_same_findings',
+ 'lean_modules': ['AstGrepVerif.Props.C09', 'AstGrepVerif.Props.C09a', 'AstGrepVerif.Props.C07', 'AstGrepVerif.Props.Verify'],
+ 'theorems': ['AGV.Verify.verdict_valid', 'AGV.Verify.verdict_invalid_skip', 'AGV.Verify.verdict_invalid_snapshot', 'AGV.Verify.verdict_invalid_update', 'AGV.Verify.run_passed_iff',
+              'AGV.C09a.frontends_same_findings',
               'AGV.C09a.scan_reports_spec',
               'AGV.C09a.stdin_eq_file',
               'AGV.C09a.stdin_eq_file_fixed',
@@ -54,7 +55,7 @@ ENTRY = {'assumptions': ['the matches of each rule on the text and their environ
                   "assumed, not modelled: tower-lsp's JSON-RPC framing and dispatch (`sg lsp` sets concurrency_level(1): one handler at a time, in arrival "
                   'order); the awaited correspondence builds the Backend the same way and follows every notification by a barrier; get_diagnostics is a '
                   'function of (uri, text) (fixture rule `console.log($A)`: one diagnostic per such line)'],
- 'units': ['template_fix', 'frontends_findings', 'lsp_history', 'lsp_unawaited']}
+ 'units': ['template_fix', 'frontends_findings', 'lsp_history', 'lsp_unawaited', 'verify_run']}
 MANIFEST = {'note': 'H17 confirmed on the pinned code and repaired by FIX_C09 (ScanStdin skips severity-off rules). A second defect of ScanStdin (rules written for '
          'another language than the one stdin is parsed as were run on the foreign tree; repaired by b052bde) is the model switch Variant.stdinFiltersLang, '
          'probed on the real CLI like stdinFiltersOff. Shallow model; assurance mostly from the end-to-end '
@@ -62,7 +63,7 @@ MANIFEST = {'note': 'H17 confirmed on the pinned code and repaired by FIX_C09 (S
          'assumed by the model and checked end to end by the lsp_unawaited oracle only.',
  'technique': 'Lean 4 proof over shallow front-end models (findings) and an invariant over notification histories (LSP) + end-to-end differential '
               'correspondence through the real CLI and an in-process / out-of-process language server',
- 'text': 'FINDINGS HALF — Findings half of C09. Lean theorems over a shallow executable model of which rules each front end registers and how a match becomes '
+ 'text': 'TEST RUNNER — Model/Verify + Props/Verify: verdict_valid, verdict_invalid_skip, verdict_invalid_snapshot, verdict_invalid_update, run_passed_iff (sg test exits 0 iff every filtered-in test document with a rule meets the documented verdicts; documents for an id without a rule are ignored, visibly in the statement); unit verify_run replays the real run_test_rule_impl on generated projects. FINDINGS HALF — Findings half of C09. Lean theorems over a shallow executable model of which rules each front end registers and how a match becomes '
          'a record: for every rule set and text whose matched nodes lie in the text, `scan` on a file reports exactly the triples (rule id, byte range, '
          'message with variables substituted) of the rules that are not off (scan_reports_spec against the independent Spec.Reported), `scan --stdin` reports '
          'the same list when no rule is off and no rule is written for another language, or with FIX_C09, unconditionally (stdin_eq_file, '
